@@ -49,6 +49,7 @@ EXTENDS Naturals, Sequences, FiniteSets, TLC
 CONSTANTS Codecs,      \* spellings of codec names usable in comment / input_encoding / output_encoding
           Canon,       \* spelling -> canonical codec (row of the tables); "utf8" is an alias of "utf_8"
           EncT, DecT, EncE,
+          JunkT,       \* codec -> junk byte string -> what follows it -> the symbol it decodes to there, or "fail"
           Prefix,      \* output codec -> what it emits before the first character (a BOM), "h" when nothing
           Cells,       \* the set of cells to run
           Emit         \* print the expected observations of every finished cell
@@ -72,6 +73,18 @@ Idx == 1..Len(cell.c)
 Given(c) == [i \in 1..Len(c.c) |-> EncT[c.x][c.c[i]]]
 DecodeWith(codec, hexes) == LET tab == DecT[Canon[codec]] IN [i \in 1..Len(hexes) |-> tab[hexes[i]]]
 Fails(syms) == \E i \in 1..Len(syms) : syms[i] = "fail"
+\* A cell may carry one possibly undecodable byte string (cell.bj: a byte invalid in some codecs, a truncated multi-byte
+\* sequence, an overlong / illegal utf-8 sequence, a lone trail byte) at a position (cell.bp: the first bytes of the input,
+\* inside the magic comment line, the middle of a line, the last bytes of a line before LF / CRLF, the very end of the
+\* input).  What it decodes to depends on the codec and on what follows it.  text-decode is of the WHOLE input: it
+\* fails when any part fails.
+HasJunk(c) == c.bj # None
+Foll(pos) == IF pos \in {"start", "incomment", "middle"} THEN "sp" ELSE IF pos = "eol_lf" THEN "lf"
+             ELSE IF pos = "eol_crlf" THEN "crlf" ELSE "eof"
+DecodeAll(codec, c) == DecodeWith(codec, Given(c)) \o
+                       (IF HasJunk(c) THEN <<JunkT[Canon[codec]][c.bj][Foll(c.bp)]>> ELSE <<>>)
+\* the content of the template: the magic comment line (and what stands in it) is not content
+ContentOf(c, t) == IF HasJunk(c) /\ c.bp = "incomment" THEN SubSeq(t, 1, Len(c.c)) ELSE t
 
 InitRest == /\ pc = "decide" /\ enc = None /\ res = "ok"
             /\ text = <<>> /\ content = <<>> /\ modfile = NoMod /\ loaded = <<>> /\ src = <<>> /\ uni = <<>>
@@ -99,12 +112,12 @@ Decide ==
 Decode ==
   /\ pc = "decode"
   /\ UNCHANGED <<cell, enc, content, modfile, loaded, src, uni, out>>
-  /\ LET t == DecodeWith(enc, Given(cell)) IN
+  /\ LET t == DecodeAll(enc, cell) IN
      IF Fails(t) THEN /\ res' = "CompileException" /\ pc' = "raised" /\ UNCHANGED text
                  ELSE /\ text' = t /\ pc' = "lex" /\ UNCHANGED res
 \* Lexer.parse: match_reg(_coding_re) moves past the comment; the body is the content
 Lex ==
-  /\ pc = "lex" /\ content' = text
+  /\ pc = "lex" /\ content' = (IF cell.form = "str" THEN text ELSE ContentOf(cell, text))
   /\ pc' = (IF cell.path \in {"moddir", "reload"} THEN "write" ELSE "exec")
   /\ UNCHANGED <<cell, enc, res, text, modfile, loaded, src, uni, out>>
 
@@ -136,7 +149,7 @@ NewProcess ==
 \* ModuleInfo.source: the template's bytes decoded with module._source_encoding (a str is itself)
 Source ==
   /\ pc = "source" /\ pc' = "renderu"
-  /\ src' = (IF cell.form = "str" THEN cell.c ELSE DecodeWith(enc, Given(cell)))
+  /\ src' = (IF cell.form = "str" THEN cell.c ELSE DecodeAll(enc, cell))
   /\ UNCHANGED <<cell, enc, res, text, content, modfile, loaded, uni, out>>
 
 (* ---------------- runtime._render ---------------- *)
@@ -172,7 +185,8 @@ Declared(c) == IF IsBytes(c) /\ c.bom THEN "utf_8"
                ELSE IF c.cm # None THEN c.cm ELSE IF c.ie # None THEN c.ie ELSE "utf_8"
 Contradicted(c) == IsBytes(c) /\ c.bom /\ c.cm # None /\ Canon[c.cm] # "utf_8"
 AliasCorner(c)  == IsBytes(c) /\ c.bom /\ c.cm # None /\ c.cm # "utf_8" /\ Canon[c.cm] = "utf_8"
-DecodedText(c) == IF IsBytes(c) THEN DecodeWith(Declared(c), Given(c)) ELSE c.c
+DecodedText(c) == IF IsBytes(c) THEN DecodeAll(Declared(c), c) ELSE c.c
+DecodedContent(c) == IF IsBytes(c) THEN ContentOf(c, DecodedText(c)) ELSE c.c
 Undecodable(c) == IsBytes(c) /\ Fails(DecodedText(c))
 
 Precedence == (enc # None) => Canon[enc] = Canon[Declared(cell)]
@@ -181,10 +195,10 @@ ErrorsExact == /\ (pc = "raised") => (res = "CompileException" /\ (Contradicted(
                /\ (pc = "done") => (res = "ok" /\ ~Contradicted(cell) /\ ~Undecodable(cell))
 \* on every path the module's literals and Template.source are the decoded text
 SameTemplateAsDecodedText ==
-  /\ (pc \in {"source", "renderu", "render", "done"}) => loaded = DecodedText(cell)
+  /\ (pc \in {"source", "renderu", "render", "done"}) => loaded = DecodedContent(cell)
   /\ (pc \in {"renderu", "render", "done"}) => src = DecodedText(cell)
   /\ (pc \in {"import", "import2", "newproc"}) => (Canon[modfile.coding] = Canon[Declared(cell)] /\ Honoured(modfile.lines))
-RenderUnicodeIgnoresOutputEncoding == (pc \in {"render", "done"}) => uni = DecodedText(cell)
+RenderUnicodeIgnoresOutputEncoding == (pc \in {"render", "done"}) => uni = DecodedContent(cell)
 RenderEncodes == (pc = "done") =>
       IF cell.oe = None THEN out = [ty |-> "str", pre |-> "h", v |-> uni]
       ELSE out = EncodeOut(cell.oe, cell.errs, uni)
